@@ -1,5 +1,7 @@
 (* C15 -- robustness (partial): the arithmetic of the tokenizer / dispatcher / stream never goes wrong. *)
 From LolModel Require Import Machine Selectors.
+From LolProofs Require Import InlineAcyclic.
+From LolGen Require Import StateTable.
 From LolProofs Require Import Tiling TableFacts.
 From LolProps Require Import C01.
 From Coq Require Import ZArith Lia.
@@ -21,5 +23,12 @@ Qed.
 Theorem C15_wrap32_in_range : forall z, (-2147483648 <= wrap32 z < 2147483648)%Z.
 Proof. intro z. unfold wrap32. pose proof (Z.mod_pos_bound (z + 2147483648) 4294967296 ltac:(lia)). lia. Qed.
 
+(* No stack exhaustion from the tokenizer: `--> #[inline] state` is a direct call of the state function, every other transition
+   returns to the parsing loop first; on the regenerated table the inline transitions form no cycle, so the depth of nested
+   state-function calls is bounded by the number of states for every input. *)
+Theorem C15_inline_transitions_form_no_cycle : forallb (fun st => negb (on_inline_cycle st)) all_states = true.
+Proof. exact inline_transitions_form_no_cycle. Qed.
+
 Print Assumptions C15_no_offset_panic.
 Print Assumptions C15_wrap32_in_range.
+Print Assumptions C15_inline_transitions_form_no_cycle.
